@@ -106,7 +106,7 @@ func appendPolygon(b []byte, p *s2.Polygon) []byte {
 
 // appendFeature renders everything the API exposes about f; a panic anywhere
 // inside becomes the text PANIC(...) so that transcripts never panic.
-func appendFeature(b []byte, f b6.Feature) (out []byte) {
+func appendFeature(b []byte, f b6.Feature, full bool) (out []byte) {
 	n := len(b)
 	defer func() {
 		if e := recover(); e != nil {
@@ -157,6 +157,9 @@ func appendFeature(b []byte, f b6.Feature) (out []byte) {
 		b = appendID(b, r.Source())
 	}
 	b = append(b, ']')
+	if !full {
+		return b
+	}
 	switch ff := f.(type) {
 	case b6.AreaFeature:
 		b = append(b, " area["...)
@@ -255,16 +258,17 @@ func section(b []byte, name string, f func(b []byte) []byte) (out []byte) {
 }
 
 // appendSorted renders the features, sorts the renderings and appends them.
-func appendSorted(b []byte, fs []b6.Feature, suffix func(i int) string) []byte {
+func (t *tr) appendSorted(b []byte, fam byte, fs []b6.Feature, suffix func(i int) string) []byte {
 	items := make([]string, len(fs))
-	var scratch []byte
+	scratch := t.scratch
 	for i, f := range fs {
-		scratch = appendFeature(scratch[:0], f)
+		scratch = appendFeature(scratch[:0], f, t.first(fam, f))
 		if suffix != nil {
 			scratch = append(scratch, suffix(i)...)
 		}
 		items[i] = string(scratch)
 	}
+	t.scratch = scratch
 	sort.Strings(items)
 	for i, it := range items {
 		if i > 0 {
@@ -273,6 +277,34 @@ func appendSorted(b []byte, fs []b6.Feature, suffix func(i int) string) []byte {
 		b = append(b, it...)
 	}
 	return b
+}
+
+// tr: per-transcript state. A feature is rendered in full (geometry resolved
+// through the feature's own resolver, members, items) the first time it is
+// returned by a family of queries (feat, refs, rels, colls, areas, trav, find,
+// each) and with id, tags (Get agreeing) and references afterwards: the same
+// world method produced it through the same code path, only the queried ID or
+// tag differs, and the implementation's location lookups are slow.
+type tr struct {
+	seen    map[famKey]bool
+	scratch []byte
+}
+
+type famKey struct {
+	fam byte
+	id  b6.FeatureID
+}
+
+func (t *tr) first(fam byte, f b6.Feature) bool {
+	if f == nil {
+		return true
+	}
+	k := famKey{fam, f.FeatureID()}
+	if t.seen[k] {
+		return false
+	}
+	t.seen[k] = true
+	return true
 }
 
 var refTypes = []b6.FeatureType{b6.FeatureTypePath, b6.FeatureTypeArea, b6.FeatureTypeRelation, b6.FeatureTypeCollection}
@@ -290,12 +322,13 @@ func appendIDSet(b []byte, ids []b6.FeatureID) []byte {
 
 // transcript of a world. queries: the FindFeatures menu.
 func transcript(w b6.World, ids []b6.FeatureID, queries []wk.NamedQuery) []byte {
-	b := make([]byte, 0, 16<<10)
+	b := make([]byte, 0, 64<<10)
+	t := &tr{seen: map[famKey]bool{}}
 	for _, id := range ids {
 		id := id
 		s := id.String()
 		b = section(b, "has:"+s, func(b []byte) []byte { return strconv.AppendBool(b, w.HasFeatureWithID(id)) })
-		b = section(b, "feat:"+s, func(b []byte) []byte { return appendFeature(b, w.FindFeatureByID(id)) })
+		b = section(b, "feat:"+s, func(b []byte) []byte { return appendFeature(b, w.FindFeatureByID(id), true) })
 		b = section(b, "loc:"+s, func(b []byte) []byte {
 			ll, err := w.FindLocationByID(id)
 			if err != nil {
@@ -313,7 +346,7 @@ func transcript(w b6.World, ids []b6.FeatureID, queries []wk.NamedQuery) []byte 
 			}
 			b = appendIDSet(b, got)
 			b = append(b, " :: "...)
-			return appendSorted(b, fs, nil)
+			return t.appendSorted(b, 'r', fs, nil)
 		})
 		for _, t := range refTypes {
 			t := t
@@ -336,7 +369,7 @@ func transcript(w b6.World, ids []b6.FeatureID, queries []wk.NamedQuery) []byte 
 			}
 			b = appendIDSet(b, got)
 			b = append(b, " :: "...)
-			return appendSorted(b, fs, nil)
+			return t.appendSorted(b, 'l', fs, nil)
 		})
 		b = section(b, "colls:"+s, func(b []byte) []byte {
 			var fs []b6.Feature
@@ -348,7 +381,7 @@ func transcript(w b6.World, ids []b6.FeatureID, queries []wk.NamedQuery) []byte 
 			}
 			b = appendIDSet(b, got)
 			b = append(b, " :: "...)
-			return appendSorted(b, fs, nil)
+			return t.appendSorted(b, 'c', fs, nil)
 		})
 		if id.Type == b6.FeatureTypePoint {
 			b = section(b, "areas:"+s, func(b []byte) []byte {
@@ -361,7 +394,7 @@ func transcript(w b6.World, ids []b6.FeatureID, queries []wk.NamedQuery) []byte 
 				}
 				b = appendIDSet(b, got)
 				b = append(b, " :: "...)
-				return appendSorted(b, fs, nil)
+				return t.appendSorted(b, 'a', fs, nil)
 			})
 			b = section(b, "trav:"+s, func(b []byte) []byte {
 				var fs []b6.Feature
@@ -372,7 +405,7 @@ func transcript(w b6.World, ids []b6.FeatureID, queries []wk.NamedQuery) []byte 
 					segs = append(segs, sg)
 					fs = append(fs, sg.Feature)
 				}
-				return appendSorted(b, fs, func(i int) string { return fmt.Sprintf(" [%d-%d]", segs[i].First, segs[i].Last) })
+				return t.appendSorted(b, 't', fs, func(i int) string { return fmt.Sprintf(" [%d-%d]", segs[i].First, segs[i].Last) })
 			})
 		}
 	}
@@ -388,7 +421,8 @@ func transcript(w b6.World, ids []b6.FeatureID, queries []wk.NamedQuery) []byte 
 				first = false
 				b = appendID(b, it.FeatureID())
 				b = append(b, " = "...)
-				b = appendFeature(b, it.Feature())
+				f := it.Feature()
+				b = appendFeature(b, f, t.first('f', f))
 			}
 			return b
 		})
@@ -406,7 +440,7 @@ func transcript(w b6.World, ids []b6.FeatureID, queries []wk.NamedQuery) []byte 
 			b = append(b, "err:"...)
 			b = append(b, err.Error()...)
 		}
-		return appendSorted(b, fs, nil)
+		return t.appendSorted(b, 'e', fs, nil)
 	})
 	b = section(b, "tokens", func(b []byte) []byte {
 		t := append([]string{}, w.Tokens()...)
